@@ -3,6 +3,9 @@ import JominiModel.Proofs.BinReader
 import JominiModel.Proofs.TextTapeTotal
 import JominiModel.Props.C12
 import JominiModel.Props.C17
+import JominiModel.Props.C13
+import JominiModel.Props.C15
+import JominiModel.Props.C16
 /-
 C05 — No input can crash, hang or escape memory bounds in any entry point.
 
@@ -71,5 +74,21 @@ theorem C05_dom_total (t : Dom.Tape) (hw : Dom.wfTape t = true) :
   refine ⟨h1, fun s e hwo hse => ?_⟩
   obtain ⟨fs, q, n, gs, a, b, c, _⟩ := h2 s e hwo hse
   exact ⟨fs, q, n, gs, a, b, c⟩
+
+/-- Text writer: for ARBITRARY (also ill-formed) call lists every call returns a value or the
+`StackEmpty` error; the transition-table index, the `unwrap`s and `unreachable!`s never fail. -/
+theorem C05_writer_total : type_of% @C15.C15_total_run := @C15.C15_total_run
+
+/-- JSON conversion: on every structurally sound tape all three entry points return, for all
+option combinations and both encodings (no `unwrap` / index / debug assertion fails, no loop
+runs away). -/
+theorem C05_json_total : type_of% @C16.C16_total_all := @C16.C16_total_all
+
+/-- Date parsers: none of `Date::parse`, `DateHour::parse`, `UniformDate::parse`,
+`RawDate::parse` panics on any byte string; `from_binary` never panics or overflows on any
+integer (`month_day_from_julian`'s `unreachable!` is unreachable). -/
+theorem C05_date_parse_total : type_of% @C13.C13_no_panic_parse := @C13.C13_no_panic_parse
+
+theorem C05_date_from_binary_total : type_of% @C13.C13_no_overflow_from_binary := @C13.C13_no_overflow_from_binary
 
 end Jomini.Props.C05
